@@ -58,15 +58,15 @@ Theorem init_config_spec q preset reps E :
   let R := result_file E (init_config q preset E) in
   spec_ok reps E R (result_file R (init_config q preset R)) = true.
 Proof.
-  intros Hl Hs Hq1 Hq2 Hq3. pose proof (preset_lookup_ok _ _ Hl) as Hok.
+  intros Hl Hs Hq1 Hq2 Hq3. pose proof (preset_lookup_ok _ _ Hl) as Hok. cbv zeta.
   unfold init_config. rewrite Hl. unfold init_with.
   destruct (analyse E) as [es|ks|] eqn:HE; [| |discriminate Hs].
   - (* block document *)
     assert (Hag : agree q (map ekey es)).
     { apply agree_intro; [exact sections_distinct_ok|]. unfold spelling_ok in Hq1. now rewrite HE in Hq1. }
-    unfold init_from at 2.
     destruct (filter (fun s => negb (present q (map ekey es) (fst s))) (preset_sections reps)) as [|m ms'] eqn:Hms.
-    + cbn [result_file]. rewrite HE. unfold init_from. rewrite Hms. cbn [result_file].
+    + assert (Hr : init_from q (preset_sections reps) E (RBlock es) = AlreadyComplete) by (unfold init_from; now rewrite Hms).
+      rewrite Hr. cbn [result_file]. rewrite HE, Hr. cbn [result_file].
       apply (unchanged_spec reps E Hok); [now rewrite HE|]. intros _. rewrite HE.
       unfold complete_r, root_keys. apply forallb_forall. intros n Hn.
       rewrite <- (Hag n Hn). destruct (preset_ok_facts reps Hok) as (Hnames & _).
@@ -74,17 +74,21 @@ Proof.
       destruct (present q (map ekey es) (fst s)) eqn:Hp; [reflexivity|].
       assert (Hf : In s (filter (fun s => negb (present q (map ekey es) (fst s))) (preset_sections reps))) by (apply filter_In; now rewrite Hp).
       rewrite Hms in Hf. contradiction.
-    + cbn [negb andb result_file]. rewrite <- Hms.
+    + assert (Hr : init_from q (preset_sections reps) E (RBlock es)
+                   = Merged (map fst (m :: ms')) (merge_lines q E (join_texts section_join_newlines (map snd (m :: ms')))))
+        by (unfold init_from; now rewrite Hms).
+      rewrite Hr. cbn [result_file]. rewrite <- Hms.
       apply (merged_spec q reps E es Hok sections_distinct_ok HE Hag Hq3). rewrite Hms. discriminate.
   - (* flow-style root *)
     assert (Hq : q_append_to_flow_root q = false).
     { destruct Hq2 as [H|H]; [exact H|]. unfold is_block in H. rewrite HE in H. discriminate H. }
     assert (Hun : spec_ok reps E E E = true).
     { apply (unchanged_spec reps E Hok); [now rewrite HE|]. unfold is_block. rewrite HE. discriminate. }
-    unfold init_from at 2.
     destruct (filter (fun s => negb (present q ks (fst s))) (preset_sections reps)) as [|m ms'] eqn:Hms.
-    + cbn [result_file]. rewrite HE. unfold init_from. rewrite Hms. exact Hun.
-    + rewrite Hq. cbn [negb andb result_file]. rewrite HE. unfold init_from. rewrite Hms, Hq. exact Hun.
+    + assert (Hr : init_from q (preset_sections reps) E (RFlow ks) = AlreadyComplete) by (unfold init_from; now rewrite Hms).
+      rewrite Hr. cbn [result_file]. rewrite HE, Hr. exact Hun.
+    + assert (Hr : init_from q (preset_sections reps) E (RFlow ks) = Refused) by (unfold init_from; now rewrite Hms, Hq).
+      rewrite Hr. cbn [result_file]. rewrite HE, Hr. exact Hun.
 Qed.
 
 (* the specification, bit by bit *)
@@ -117,10 +121,10 @@ Inductive subseq {A} : list A -> list A -> Prop :=
 
 Lemma subseqb_sound a b : subseqb a b = true -> subseq a b.
 Proof.
-  revert a. induction b as [|y b IH]; intros [|x a] H; try constructor; try discriminate H.
-  cbn [subseqb] in H. destruct (String.eqb_spec x y) as [->|].
-  - constructor. now apply IH.
-  - constructor. now apply IH.
+  revert a. induction b as [|y b IH]; intros [|x a] H; try apply sub_nil; try discriminate H.
+  cbn [subseqb] in H. destruct (String.eqb_spec x y) as [Heq|Hne].
+  - subst y. apply sub_take. now apply IH.
+  - apply sub_skip. now apply IH.
 Qed.
 
 (* ------------------------------------------------------------------ the generated file itself *)
